@@ -12,7 +12,9 @@ import Pdb.Model.Dur
 import Pdb.Model.MultiTree
 import Pdb.Model.Migrate
 import Pdb.Model.BTree
+import Pdb.Model.BTreeBatch
 import Pdb.Model.Index
+import Pdb.Model.DumpCheck
 
 open Pdb
 
@@ -108,6 +110,7 @@ structure State where
   c06 : Pdb.ValueTable.State := {}
   c10 : Pdb.MultiTree.DState := none
   c04 : Option Pdb.C04.Drv := none
+  c04b : Option Pdb.C04.DrvB := none
   c09 : Pdb.Index.DState := Pdb.Index.DState.init
 
 def stepLine (s : State) (line : String) : State × String :=
@@ -133,6 +136,9 @@ def stepLine (s : State) (line : String) : State × String :=
   | "c04" :: rest =>
     let r := Pdb.C04.driverStep s.c04 rest
     ({ s with c04 := r.1 }, r.2)
+  | "c04b" :: rest =>
+    let r := Pdb.C04.driverStepB s.c04b rest
+    ({ s with c04b := r.1 }, r.2)
   | "c10" :: rest =>
     let (c, o) := Pdb.MultiTree.step s.c10 rest
     ({ s with c10 := c }, o)
@@ -140,6 +146,7 @@ def stepLine (s : State) (line : String) : State × String :=
     let (st', out) := Pdb.ValueTable.step s.c06 rest
     ({ s with c06 := st' }, out)
   | "c06" :: rest => (s, Pdb.ValueTable.driverLine rest)
+  | "t2" :: rest => (s, Pdb.DumpCheck.driverLine rest)
   | [] => (s, "")
   | _ => (s, "bad-op")
 
